@@ -453,12 +453,19 @@ def _merge_masks(
     idx_values.sort()
 
     indices_dtype = choose_int_dtype((0, max(n_indices, n_genes)))
+    if n_indices > 0:
+        sparse_chunks = (min(n_indices, 1000000),)
+    else:
+        # an empty dataset can be neither chunked nor compressed
+        sparse_chunks = None
+        compression = None
+        compression_opts = None
     with h5py.File(dst_path, 'a') as dst:
         dst_indices = dst.create_dataset(
             'indices',
             shape=(n_indices,),
             dtype=indices_dtype,
-            chunks=(min(n_indices, 1000000),),
+            chunks=sparse_chunks,
             compression=compression,
             compression_opts=compression_opts)
 
@@ -466,7 +473,7 @@ def _merge_masks(
             'data',
             shape=(n_indices,),
             dtype=data_dtype,
-            chunks=(min(n_indices, 1000000),),
+            chunks=sparse_chunks,
             compression=compression,
             compression_opts=compression_opts)
 
